@@ -60,7 +60,7 @@ var verifWarmGrid = []struct {
 	thr    float64
 	period uint32
 	cold   uint32
-}{{10, 10, 3}, {100, 5, 3}, {1, 1, 3}, {0.5, 10, 3}, {1000, 60, 10}, {3, 2, 2}, {20, 3, 0}, {7.5, 4, 5}}
+}{{10, 10, 3}, {100, 5, 3}, {1, 1, 3}, {0.5, 10, 3}, {1000, 60, 10}, {3, 2, 2}, {20, 3, 0}, {7.5, 4, 5}, {1, 10, 3}, {2, 10, 3}, {3, 10, 3}}
 
 func VerifC11Warm() {
 	g := verifWarmGrid[rt.Param("GRID")]
@@ -158,4 +158,39 @@ func VerifC11WarmDrain() {
 	c.CalculateAllowedTokens(1, 0)
 	rt.Reach("c11.drain")
 	rt.Assert(c.storedTokens < stored, "under sustained demand the bucket above the warning line drains (the rate climbs towards the threshold)")
+}
+
+// VerifC11WarmStarve: a steady single-token demand is not starved forever when the threshold is at
+// least one. One-step form: if this second's single-token request is rejected (allowed < 1) and the
+// previous second admitted nothing, then one more such second changes the bucket or lifts the rate
+// to at least one - a state in which neither happens rejects the demand forever.
+func VerifC11WarmStarve() {
+	g := verifWarmGrid[rt.Param("GRID")]
+	r := &Rule{Resource: "W", TokenCalculateStrategy: WarmUp, ControlBehavior: Reject, Threshold: g.thr, WarmUpPeriodSec: g.period, WarmUpColdFactor: g.cold}
+	st := &verifQpsStat{}
+	tsc := &TrafficShapingController{rule: r, boundStat: standaloneStatistic{readOnlyMetric: st}}
+	c := NewWarmUpTrafficShapingCalculator(tsc, r).(*WarmUpTrafficShapingCalculator)
+	cold := g.cold
+	if cold <= 1 {
+		cold = 3
+	}
+	if g.thr < 1 || c.maxToken <= c.warningToken {
+		return
+	}
+	stored := rt.I64n("stored", 40)
+	rt.Assume(stored <= int64(c.maxToken))
+	c.storedTokens = stored
+	last := (2000000000 + rt.U64n("lastSec", 8)) * 1000
+	c.lastFilledTime = last
+	now := last + 1000 + rt.U64n("extraMs", 10)
+	rt.SetClockMs(now)
+	st.prev = 0 // nothing was admitted in the previous second
+	allowed := c.CalculateAllowedTokens(1, 0)
+	rt.Reach("c11.starve")
+	if allowed < 1 {
+		before := c.storedTokens
+		rt.SetClockMs(now + 1000)
+		allowed2 := c.CalculateAllowedTokens(1, 0)
+		rt.AssertExcept(allowed2 >= 1 || c.storedTokens != before, "a rejected steady single-token demand makes progress (the bucket moves or the rate reaches one): it is not starved forever", "D30", uint32(g.thr)/cold == 0)
+	}
 }
